@@ -96,7 +96,7 @@ IbanPartsOutcome(e) ==
         badc == FirstBad(ComponentNames, LAMBDA n : o.comp[n] # Component(Table, s, n))
         badb == FirstBad(ComponentNames, LAMBDA n : o.bcomp[n] # o.comp[n])
     IN  IF o.k = "exc" THEN (IF ~o.lib THEN "non-library-exception"
-                            ELSE IF e.ai \/ (e.judge /\ Valid(Table, e.t)) THEN "decomposition-raised" ELSE "ok")
+                            ELSE IF e.judge /\ Valid(Table, e.t) THEN "decomposition-raised" ELSE "ok")
         ELSE IF ~e.cmp THEN "ok"
         ELSE IF o.val # s \/ o.compact # s THEN "compact-differs"
         ELSE IF o.length # Len(s) \/ o.len # Len(s) THEN "length-differs"
@@ -117,7 +117,7 @@ BicPartsOutcome(e) ==
     LET s == Clean(e.t)
         o == e.out
     IN  IF o.k = "exc" THEN (IF ~o.lib THEN "non-library-exception"
-                            ELSE IF e.ai \/ (e.judge /\ BicValid(e.t, FALSE)) THEN "decomposition-raised" ELSE "ok")
+                            ELSE IF e.judge /\ BicValid(e.t, FALSE) THEN "decomposition-raised" ELSE "ok")
         ELSE IF ~e.cmp THEN "ok"
         ELSE IF o.val # s \/ o.compact # s THEN "compact-differs"
         ELSE IF o.length # Len(s) THEN "length-differs"
@@ -127,7 +127,7 @@ BicPartsOutcome(e) ==
         ELSE IF o.branch # BicBranch(s) THEN "branch-differs"
         ELSE IF Len(s) \in {8, 11} /\ o.party \o o.cc \o o.loc \o o.branch # s THEN "not-lossless"
         ELSE IF o.formatted # BicFormatted(s) THEN "formatted-differs"
-        ELSE IF o.reparse_fmt # s THEN "formatted-does-not-round-trip"
+        ELSE IF Len(s) \in {8, 11} /\ o.reparse_fmt # s THEN "formatted-does-not-round-trip"
         ELSE IF Len(s) \in {8, 11} /\ o.type # BicType(s) THEN "type-differs"
         ELSE "ok"
 
